@@ -50,6 +50,31 @@ def reg(pid, level, rules, explanation, text, note, technique, design_ref, assum
     MANIFEST_TEXT[pid] = {'text': text, 'note': note, 'technique': technique, 'design_ref': design_ref}
 
 
+def only(rule, pattern, label=None):
+    """The clauses of a shared rule that belong to this property: instances whose entity matches `pattern` (anchors and floors always).
+    A case table is computed once; each property reports the part of it that its own statement is about."""
+    import re as _re
+    rx = _re.compile(pattern)
+
+    def run(ctx, rep):
+        from .engine import Report
+        sub = Report(rep.prop)
+        rule(ctx, sub)
+        for rid, desc in sub.rules.items():
+            rep.rules[rid] = desc + ' [clauses reported for this property: /%s/]' % pattern
+        for rid, fl in sub.floors.items():
+            rep.floors[rid] = fl
+        kept = 0
+        for i in sub.instances:
+            if i.verdict == 'anchor' or rx.search(i.entity):
+                rep.instances.append(i)
+                kept += i.verdict != 'anchor'
+        if not kept and not any(i.verdict == 'anchor' for i in sub.instances):
+            rep.anchor(next(iter(sub.rules), 'ENGINE'), 'FILTER', 'no instance of the shared rule matches /%s/ (clause renamed?)' % pattern)
+    run.__name__ = (label or rule.__name__) + '~' + pattern
+    return run
+
+
 def _c03_sites(ctx, rep):
     panics.rule_panic_sites(ctx, rep, 'C03')
 
@@ -93,8 +118,8 @@ reg('C02', 'other',
     MACHINE + ' The abstract language of the scanner model stands for the seven interpreters (the scanner is generic over L).',
     T_VM, 'DESIGN.md §10.3')
 reg('C03', 'other',
-    [_c03_sites, scanvm.rule_validator_entry, lexeval.rule_digit_ops, progress.rule_loops, progress.rule_recursion, scanvm.rule_scanner_total,
-     scanvm.rule_occurrence_wellformed, scanvm.rule_replace_tokenwise, textvm.rule_tokenizer, textvm.rule_word_splitter, dsvm.rule_builder_cases],
+    [_c03_sites, only(scanvm.rule_validator_entry, r'^result\|'), lexeval.rule_digit_ops, progress.rule_loops, progress.rule_recursion, scanvm.rule_scanner_total,
+     only(textvm.rule_tokenizer, r'^no-panic$'), only(textvm.rule_word_splitter, r'^no-panic$'), only(dsvm.rule_builder_cases, r'^no-panic$')],
     "B1 the complete inventory of panic-capable sites in the library MIR (Assert terminators + calls to partial callees) with each site discharged "
     "by a dominating guard (difference-constraint prover over branch facts), constant call-site arguments, constant constructor input or a named "
     "instance whose guards are checked; a site the prover cannot discharge is reported only if the bounded case tables of the abstract machine that "
@@ -111,7 +136,7 @@ reg('C03', 'other',
     assumptions=['token iterators supplied by the caller are finite'])
 reg('C04', 'other',
     [phrases.rule_ordinal_roundtrip, sentences.rule_ordinals_in_sentences, lexeval.rule_lex_ord, lexical.rule_group_ordinal, lexeval.rule_split_closure, builder.rule_frozen_first,
-     lexeval.rule_sep_mark],
+     only(lexeval.rule_sep_mark, r'\|ordinal-template$')],
     "A0-ORDINALS: the validator path (exec_group, apply, the crate's DigitString, interpreted) turns the standard spelling of the n-th ordinal into "
     "the digits of n with the language's marker and a frozen builder, for every n < 1000 (10 000 thorough) in en, fr, de, nl, it. "
     "A2 every core ordinal form and inflection of the reference lexicon (~750 forms), evaluated through apply, is accepted with the instruction of its "
@@ -121,7 +146,7 @@ reg('C04', 'other',
     'Ordinal mechanism decided by evaluating the interpreter source on ~750 ordinal forms and the formatter on marked builders.',
     'Not decided: the composition for every rank (same limit as C01).', T_LEX, 'DESIGN.md §10.2')
 reg('C05', 'other',
-    [sentences.rule_decimals_in_sentences, lexeval.rule_dec_table, lexeval.rule_sep_mark, scanvm.rule_decimal_scanner, dsvm.rule_builder_cases],
+    [sentences.rule_decimals_in_sentences, lexeval.rule_dec_table, only(lexeval.rule_sep_mark, r'\|(separator|decimal-template)$'), scanvm.rule_decimal_scanner, only(dsvm.rule_builder_cases, r'^(push-appends|rendering|zeros)$')],
     "A4 apply_decimal evaluated: en/de append each spoken digit with push (zero synonyms alike, anything else refused), the other languages read the "
     "fraction with apply itself; A5 is_decimal_sep is true exactly on the separator word and format_decimal_and_value renders {int}<mark>{frac} with "
     "leading zeros kept and value {int}.{frac}; V05 the scanner on every script over {number words, zero, separator, ordinal, ordinary word}: integer + "
@@ -130,7 +155,7 @@ reg('C05', 'other',
     'Decimal path decided by evaluation of the language functions and by the scanner\'s complete case table over decimal scripts.',
     MACHINE, T_VM + '; ' + T_LEX, 'DESIGN.md §10.2, §10.3')
 reg('C06', 'other',
-    [scanvm.rule_occurrence_wellformed, sentences.rule_occurrences_in_sentences, lexeval.rule_sep_mark, scanvm.rule_decimal_scanner],
+    [scanvm.rule_occurrence_wellformed, sentences.rule_occurrences_in_sentences, only(lexeval.rule_sep_mark, r'\|(decimal-template|ordinal-template)$'), scanvm.rule_decimal_scanner],
     "V06 on every token script: spans inside the stream, strictly increasing, disjoint, begin and end on the first / last word the interpreter accepted "
     "for that number; text and value are the two halves of one formatter result for the words inside the span; the ordinal flag is that of the integer "
     "part. A5 the formatters, evaluated: digits, optional mark + digits, optional marker (es 1/n), value = reading of the digits. " + MACHINE,
@@ -150,7 +175,7 @@ reg('C07', 'other',
     T_VM + '; ' + T_LEX + '; MIR write-before-Err reachability', 'DESIGN.md §10.2, §10.3')
 reg('C08', 'other',
     [phrases.rule_pairs, sentences.rule_pairs_in_sentences, lexeval.rule_neg_contexts, lexical.rule_block_contexts, lexeval.rule_flags_lifecycle, lexeval.rule_conj, lexeval.rule_zero_arm,
-     dsvm.rule_builder_cases],
+     only(dsvm.rule_builder_cases, r'^(zeros|put-value|put-digit-value)$')],
     "A0-NO-FUSION: for pairs of numbers below 100 (29 x 29 representative values; all 99 x 99 thorough), with and without the conjunction "
     "between them, the validator path accepts the phrase as ONE number only when the words are (a variant of) the standard spelling of a number, "
     "and then with its digits. A7 each unit / teen / tens / scale word, evaluated on the builder states in which the language forbids it (unit after a teen or tens, second "
@@ -170,7 +195,7 @@ reg('C09', 'other',
     'The hold/release policy compared, on the scanner\'s complete case tables, with the policy as the property states it.',
     MACHINE, T_VM, 'DESIGN.md §10.3')
 reg('C10', 'other',
-    [scanvm.rule_fresh_start, sentences.rule_context_in_sentences, lexeval.rule_neuf_annotate, lexeval.rule_o_annotate, scanner.rule_scratch_hygiene, dsvm.rule_builder_cases],
+    [scanvm.rule_fresh_start, sentences.rule_context_in_sentences, only(lexeval.rule_neuf_annotate, r'^fr\|multi\|'), only(lexeval.rule_o_annotate, r'^en\|multi\|'), scanner.rule_scratch_hygiene, only(dsvm.rule_builder_cases, r'^reset-is-new$')],
     "V10 on every token script the first word after a finished number is offered to apply on an empty, non-ordinal integer builder in integer mode; "
     "scripts A + [word word word .] + B give the occurrences of A then those of B at thresholds 0, 10, 100; punctuation keeps two numbers apart; "
     "A-NEUF-ANNOTATE / A-O-ANNOTATE: the French and English ambiguity passes, evaluated with the crate's own digit builder on texts with two "
@@ -180,7 +205,7 @@ reg('C10', 'other',
     'Context independence decided on the scanner\'s case tables (fresh start, A+separator+B) and by a typestate analysis of the scratch builders.',
     MACHINE, T_VM + '; MIR typestate dataflow', 'DESIGN.md §10.3, §10.5')
 reg('C11', 'other',
-    [textflow.rule_case_flow, scanvm.rule_case_scanner, scanvm.rule_validator_entry, sentences.rule_case_in_sentences],
+    [textflow.rule_case_flow, scanvm.rule_case_scanner, only(scanvm.rule_validator_entry, r'^words\|(case|plain)\|'), sentences.rule_case_in_sentences],
     "B9 no raw-case text (Token::text, &str parameters of the public API) reaches a vocabulary lookup, lemmatizer or interpreter without passing "
     "through a lowercase conversion (taint flow over the call graph); V11 the scanner's case table is unchanged when every token text is upper-cased "
     "(lowercase form kept); text2digits hands the lower-cased words to the group interpreter.",
@@ -232,7 +257,7 @@ reg('C15', 'other',
     'Lazy/batch agreement, bounded look-ahead and both token hints decided on complete case tables of the two drivers over all token scripts.',
     MACHINE, T_VM, 'DESIGN.md §10.3')
 reg('C16', 'other',
-    [phrases.rule_zeros_phrases, sentences.rule_zeros_in_sentences, lexeval.rule_zero_arm, lexical.rule_zero_invariance, dsvm.rule_builder_cases],
+    [phrases.rule_zeros_phrases, sentences.rule_zeros_in_sentences, lexeval.rule_zero_arm, lexical.rule_zero_invariance, only(dsvm.rule_builder_cases, r'^(zeros|rendering|emptiness)$')],
     "A0-LEADING-ZEROS: k = 1..3 zeros followed by the spelling of n validate to k zeros + digits of n (20 values of n up to 2 000 000, seven "
     "languages), a zero after a number is refused, a lone zero is 0. A6 the zero words issue put(0) whatever the builder holds; A9b for every core cardinal word, scale-word context and group path, apply evaluated on a "
     "builder with 1, 3, 6 leading zeros decides and instructs exactly as with none; V12 the builder counts a zero only while the value is zero, keeps the "
@@ -241,7 +266,7 @@ reg('C16', 'other',
     'Not decided: the scanner-level split of "n zero" for every language (covered for the abstract language by C07/C15 tables).',
     T_LEX + '; ' + T_VM, 'DESIGN.md §10.2, §10.4')
 reg('C17', 'other',
-    [textflow.rule_ws_api, textvm.rule_tokenizer, scanvm.rule_ws_scanner, scanvm.rule_validator_entry, sentences.rule_ws_in_sentences],
+    [textflow.rule_ws_api, textvm.rule_tokenizer, scanvm.rule_ws_scanner, only(scanvm.rule_validator_entry, r'^words\|(ws|plain)\|'), sentences.rule_ws_in_sentences],
     "B10 no ASCII-only whitespace facility anywhere in the library (call and fn-item inventory); V02-TOKENIZER separators are maximal non-alphanumeric "
     "runs for every class string incl. 2- and 3-byte spaces; V17 the scanner's case table is unchanged when whitespace tokens are replaced by other "
     "Unicode whitespace, when whitespace tokens are added at either end, and when the whitespace glued to punctuation tokens changes; text2digits splits "
@@ -250,7 +275,7 @@ reg('C17', 'other',
     MACHINE, 'static analysis: callee inventory; ' + T_VM, 'DESIGN.md §10.3')
 reg('C18', 'other',
     [sentences.rule_o_in_sentences, lexeval.rule_o_annotate, lexeval.rule_zero_arm, lexeval.rule_dec_table, scanner.rule_scratch_hygiene,
-     scanvm.rule_token_hints],
+     only(scanvm.rule_token_hints, r'^nan\|')],
     "A-O-ANNOTATE English::basic_annotate evaluated on a table of neighbour combinations (number word / ordinary word / punctuation / text boundary, any "
     "Unicode whitespace between): 'o' is marked exactly when neither nearest non-whitespace token is a number word, nothing else is ever marked, 'o' "
     "behaves as 'zero' in apply and apply_decimal; B7 the scratch builder is fresh at each apply; V15 marked tokens are skipped by the scanner.",
